@@ -72,6 +72,15 @@ func GenerateAlias(r *lp.Rng, index int) *Design {
 		&Field{Name: "dict", Att: &Att{Type: &Type{MapKey: &Att{Type: &Type{Prim: "String"}}, MapElem: &Att{Type: &Type{Ref: aliases[(index+1)%len(aliases)].name}}}}})
 	put.Payload = payload
 	s.Methods = append(s.Methods, put)
+	// an alias type with a FORMAT whose attribute gets a PATTERN in the HTTP mapping (and the other way round): both hold
+	d.Types = append(d.Types,
+		&TypeDef{Name: "Day", Kind: "type", Att: &Att{Type: &Type{Prim: "String"}, Val: &Validation{Format: "date"}}},
+		&TypeDef{Name: "Recent", Kind: "type", Att: &Att{Type: &Type{Prim: "String"}, Val: &Validation{Pattern: "^20"}}})
+	s.Methods = append(s.Methods, &Method{Name: "days", HTTP: &HTTPMap{Verb: "GET", Path: "/days",
+		Params:  []Mapped{{Attr: "day", Val: &Validation{Pattern: "^20"}}},
+		Headers: []Mapped{{Attr: "recent", Wire: "X-Recent", Val: &Validation{Format: "date"}}}},
+		Payload: &Att{Type: &Type{IsObject: true, Object: []*Field{
+			{Name: "day", Att: &Att{Type: &Type{Ref: "Day"}}}, {Name: "recent", Att: &Att{Type: &Type{Ref: "Recent"}}}}}}})
 
 	get := &Method{Name: "get", HTTP: &HTTPMap{Verb: "GET", Path: "/get"}}
 	res := &Att{Type: &Type{IsObject: true}}
